@@ -496,6 +496,78 @@ fn main() {
         sp.done(true, "10 issuer blocks x 9 one-address deviations x 2 modes x 3 families");
     }
 
+    //---------------------------------------------------------------- scale: issuers holding many blocks
+    {
+        use rpki_verif::engine::certref as cr;
+        let sp = ctx.space("resources.scale",
+            "issuer holding N separate blocks (N = 1,2,7..9,15..18,31..33,63..65,127..129; thorough also 255..257, 1023..1025; block j sits in the j-th stride of 16 numbers as 3..9, 8..15 (a prefix) or the single number 5, in turn), per family; claim = every single range [a, b] that starts at any of the 16 positions of a queried stride and ends at any later position of that stride or the next (gap before / first / interior / last / gap after of the same and of the following block), plus the claims 'exactly blocks j and j+1' and 'every issuer block'; queried strides: first, second, middle, last two; refuse and trim; (1) through IpBlocks/AsBlocks::verify_issued, (2) a diagonal of the same claims (7 start x 11 end positions, 3 strides, N = 8,16,17,33; thorough also 65,129) through signed EE certificates validated under the validated issuer CA; oracle: interval model - refuse accepts iff the claim is inside the issuer and returns the claim, trim returns the intersection, result always inside the issuer; non-trivial = claims that touch at least one issuer block without being inside one");
+        const S: u128 = 16;
+        let shape = |j: usize| -> (u128, u128) { match j % 3 { 0 => (3, 9), 1 => (8, 15), _ => (5, 5) } };
+        let ns: Vec<usize> = if ctx.tier.is_thorough() { vec![1, 2, 7, 8, 9, 15, 16, 17, 18, 31, 32, 33, 63, 64, 65, 127, 128, 129, 255, 256, 257, 1023, 1024, 1025] } else { vec![1, 2, 7, 8, 9, 15, 16, 17, 18, 31, 32, 33, 63, 64, 65, 127, 128, 129] };
+        let cert_ns: Vec<usize> = if ctx.tier.is_thorough() { vec![8, 16, 17, 33, 65, 129] } else { vec![8, 16, 17, 33] };
+        let base_of = |f: Fam| -> u128 { match f { Fam::As => 70_000, Fam::V4 => 0x0a00_0000, Fam::V6 => 0x2001_0db8u128 << 96 } };
+        let to_iv_ip = |f: Fam, b: &IpBlocks| -> Vec<(u128, u128)> { b.iter().map(|x| if f == Fam::V4 { (x.min().to_bits() >> 96, x.max().to_bits() >> 96) } else { (x.min().to_bits(), x.max().to_bits()) }).collect() };
+        let to_iv_as = |b: &AsBlocks| -> Vec<(u128, u128)> { b.iter().map(|x| (x.min().into_u32() as u128, x.max().into_u32() as u128)).collect() };
+        let none = Res::none();
+        let ca_ski = signer.ski(CA_KEY);
+        let mut work: Vec<(Fam, usize)> = Vec::new();
+        for f in [Fam::As, Fam::V4, Fam::V6] { for &n in &ns { work.push((f, n)) } }
+        work.par_iter().for_each(|&(f, n)| {
+            let base = base_of(f);
+            let issuer: Vec<(u128, u128)> = (0..n).map(|j| { let (lo, hi) = shape(j); (base + S * j as u128 + lo, base + S * j as u128 + hi) }).collect();
+            let mut strides: Vec<usize> = vec![0, 1, n / 2, n.saturating_sub(2), n - 1]; strides.retain(|j| *j < n); strides.sort(); strides.dedup();
+            // the claims: (label, ranges)
+            let mut claims: Vec<Vec<(u128, u128)>> = Vec::new();
+            for &j in &strides { let s0 = base + S * j as u128; for a in 0..S { for b in a..2 * S { claims.push(vec![(s0 + a, s0 + b)]) } } if j + 1 < n { claims.push(vec![issuer[j], issuer[j + 1]]) } }
+            claims.push(issuer.clone());
+            let pure = |claim: &Vec<(u128, u128)>, mode: Overclaim| -> Result<Result<Vec<(u128, u128)>, ()>, String> {
+                guard(|| match f {
+                    Fam::As => as_blocks(&issuer).verify_issued(&as_res(&Claim::Blocks(claim.clone())), mode).map(|b| to_iv_as(&b)).map_err(|_| ()),
+                    _ => { let bits = if f == Fam::V4 { 32 } else { 128 }; ip_blocks(bits, &issuer).verify_issued(&ip_res(bits, &Claim::Blocks(claim.clone())), mode).map(|b| to_iv_ip(f, &b)).map_err(|_| ()) }
+                })
+            };
+            let judge = |route: &str, claim: &Vec<(u128, u128)>, mode: Overclaim, got: Result<Result<Vec<(u128, u128)>, ()>, String>| {
+                sp.eval();
+                let wit = || format!("route={route} fam={} issuer_blocks={n} mode={} claim={}", f.name(), mode_name(mode), claim.iter().map(|(a, b)| format!("base+{}..base+{}", a - base, b - base)).collect::<Vec<_>>().join(","));
+                let claimed = cr::normalise(claim);
+                let inside = cr::subset(&claimed, &issuer);
+                let inter = cr::intersect(&claimed, &issuer);
+                if !inter.is_empty() && !inside { sp.nontrivial(1) }
+                match got {
+                    Err(p) => ctx.fail("C01.scale.nopanic", wit(), p),
+                    Ok(Err(())) => { sp.outcome("rejected");
+                        if mode == Overclaim::Trim || inside { ctx.fail("C01.scale.accept", wit(), "a claim inside the issuer's resources (or any claim under the trimming policy) is rejected") } }
+                    Ok(Ok(res)) => { sp.outcome(if inside { "accepted-inside" } else { "accepted-trimmed" });
+                        if mode == Overclaim::Refuse && !inside { ctx.fail("C01.scale.reject", wit(), format!("claim reaches outside the issuer's {n} blocks and is accepted under the no-overclaim policy")); return }
+                        let want = if mode == Overclaim::Refuse { claimed.clone() } else { inter.clone() };
+                        if cr::normalise(&res) != want { ctx.fail("C01.scale.result", wit(), format!("result {:?} (relative to base), model {:?}", res.iter().map(|(a, b)| (a.wrapping_sub(base), b.wrapping_sub(base))).collect::<Vec<_>>(), want.iter().map(|(a, b)| (a - base, b - base)).collect::<Vec<_>>())) }
+                    }
+                }
+            };
+            for claim in &claims { for mode in [Overclaim::Refuse, Overclaim::Trim] { judge("verify_issued", claim, mode, pure(claim, mode)) } }
+            if cert_ns.contains(&n) {
+                let ires = res_with(f, Claim::Blocks(issuer.clone()), &none);
+                let ca = match guard(|| build_cert(&signer, &Spec::issued(Kind::Ca, CA_KEY, TA_KEY, ta_ski, ires, Overclaim::Refuse)).validate_ca_at(&ta, true, time(T0))) {
+                    Ok(Ok(rc)) => rc, other => { ctx.fail("C01.scale.issuer", format!("fam={} issuer_blocks={n}", f.name()), format!("the issuer CA with {n} blocks does not validate under a trust anchor holding everything: {:?}", other.map(|r| r.map(|_| ()).map_err(|e| e.to_string())))); return }
+                };
+                let pos: [u128; 11] = [0, 2, 3, 5, 9, 10, 15, 18, 19, 25, 26];
+                let mut cstr: Vec<usize> = vec![0, n / 2, n - 1]; cstr.sort(); cstr.dedup();
+                for &j in &cstr { let s0 = base + S * j as u128;
+                    for &a in &pos[..7] { for &b in &pos { if b < a { continue }
+                        let claim = vec![(s0 + a, s0 + b)];
+                        for mode in [Overclaim::Refuse, Overclaim::Trim] {
+                            let leaf = build_cert(&signer, &Spec::issued(Kind::Ee, LEAF_KEY, CA_KEY, ca_ski, res_with(f, Claim::Blocks(claim.clone()), &none), mode));
+                            let got = guard(|| leaf.validate_ee_at(&ca, true, time(T0)).map(|rc| match f { Fam::As => to_iv_as(rc.as_resources()), Fam::V4 => to_iv_ip(f, rc.v4_resources()), Fam::V6 => to_iv_ip(f, rc.v6_resources()) }).map_err(|_| ()));
+                            judge("certificate", &claim, mode, got);
+                        }
+                    } }
+                }
+            }
+        });
+        sp.sample_str(|| "route=verify_issued fam=v4 issuer_blocks=17 mode=refuse claim=base+130..base+137 (starts in the gap below block 8, ends inside it) -> rejected".into());
+        sp.done(true, &format!("{} issuer sizes x 3 families x <= 5 strides x all 392 single-range claims per stride (+ block pairs, + the full set) x 2 policies through verify_issued; {} issuer sizes x 3 strides x 63 claims x 2 policies through certificates", ns.len(), cert_ns.len()));
+    }
+
     //---------------------------------------------------------------- relations
     {
         let sp = ctx.space("relations",
